@@ -494,5 +494,45 @@ func genC15(tier string, rng *Rng) {
 		runSvg(mkSvgCase(&topology.Topology{}, nil, defOpts, bid))
 		hist["base-sweep"]++
 	}
+	// ---- 5. HISTORIES on one set of arguments: the same topology JSON, the same base document and the
+	// SAME map object, edited in place between consecutive calls (that is how an application keeps its
+	// availability map); every call is an ordinary case judged on the map's content at call time
+	// (seed C15-14: a "last rendering" memo that stored the caller's map by reference)
+	n5 := 40
+	if thorough {
+		n5 = 400
+	}
+	for i := 0; i < n5; i++ {
+		o := &fillOpt{xmlChars: true, rng: rng, tricky: rng.Intn(2) == 0, pPresent: 40 + rng.Intn(40), maxSlice: 2, depthLimit: 4}
+		t := mkTopo(2+rng.Intn(4), o)
+		bid := rng.Intn(len(baseDocs))
+		m := map[uint32]uint32{}
+		for _, h := range t.HWc {
+			m[h.Id] = 1 + uint32(rng.Intn(3))
+		}
+		js := t.ToJSON()
+		call := func() {
+			runSvg(mkSvgCaseRaw(js, m, defOpts, bid))
+			hist["same-map-object-history"]++
+		}
+		call()
+		for _, h := range t.HWc { // mask one, render, unmask it and mask the next ...
+			old := m[h.Id]
+			m[h.Id] = 0
+			call()
+			m[h.Id] = old
+		}
+		call()
+		for _, h := range t.HWc { // ... then mask them all, one more per call
+			m[h.Id] = 0
+			call()
+		}
+		for _, h := range t.HWc { // no entry = visible again
+			delete(m, h.Id)
+			call()
+		}
+		m[4000000] = 0 // an entry for a component that does not exist
+		call()
+	}
 	meta(map[string]interface{}{"property": "C15", "cases": c15stats, "shape": hist, "base_documents": len(baseDocs)})
 }
